@@ -350,8 +350,11 @@ class Ctx:
             "wall_s": round(time.time() - self.t0, 2),
             "violations": len(self.violations),
         }
-        os.makedirs(os.path.join(VERIF, "evidence"), exist_ok=True)
-        json.dump(ev, open(os.path.join(VERIF, "evidence", f"{self.pid}.json"), "w"), indent=1, default=str)
+        # (tools/seeded_eval.py redirects the evidence of its runs on patched trees, so that the committed
+        # evidence always describes the unchanged tree)
+        evdir = os.environ.get("VERIF_EVIDENCE_DIR") or os.path.join(VERIF, "evidence")
+        os.makedirs(evdir, exist_ok=True)
+        json.dump(ev, open(os.path.join(evdir, f"{self.pid}.json"), "w"), indent=1, default=str)
         for l in lines:
             print(l)
         print(f"{self.pid} {self.tier} seed={self.seed}: {self.evaluations} cases, "
